@@ -501,13 +501,8 @@ func (p *Transformer) transformFuncBody(m llvm.Module, ctx llvm.Context, info *F
 				b.CreateStore(ret, params[0])
 				rv = b.CreateRetVoid()
 			case AttrWidthType:
-				if p.optimize {
-					if load := ret.IsALoadInst(); !load.IsNil() {
-						iptr := b.CreateBitCast(ret.Operand(0), llvm.PointerType(nft.ReturnType(), 0), "")
-						rv = b.CreateRet(b.CreateLoad(nft.ReturnType(), iptr, ""))
-						break
-					}
-				}
+				// As above, the returned value is not re-read from the address it was
+				// loaded from: that memory may have been modified between load and ret.
 				ptr := llvm.CreateAlloca(b, info.Return.Type)
 				b.CreateStore(ret, ptr)
 				iptr := b.CreateBitCast(ptr, llvm.PointerType(nft.ReturnType(), 0), "")
